@@ -474,7 +474,16 @@ def gen_term(tape, sort, depth, ctx):
             kinds += [(2, "ueq")]
         if ctx.usorts and ctx.arrays_over_usorts():
             kinds += [(3, "aeq")]
+        ufu = [(n, s) for n, s in ctx.symbols.items() if is_fun(s) and is_usort(s[2])] if ctx.usorts else []
+        if ufu:
+            kinds += [(3, "ufeq")]
         k = tape.weighted(kinds, "bool.kind")
+        if k == "ufeq":
+            # two applications of a function whose result sort is a declared sort: the sort occurs
+            # only in the function's signature
+            n1, s1 = tape.choice(ufu, "ufeq.fun")
+            return ["=", ["app", n1, s1[1], s1[2]] + [gen_term(tape, a, d, ctx) for a in s1[1]],
+                    ["app", n1, s1[1], s1[2]] + [gen_term(tape, a, d, ctx) for a in s1[1]]]
         if k == "aeq":
             # elements of an array over a declared sort compared with each other: the sort occurs
             # only inside the array type
